@@ -49,6 +49,10 @@ type CertSpec struct {
 	SigAlg     x509.SignatureAlgorithm
 	MaxPathLen int
 	NoCRLDP    bool
+	// RawSubject / SubjectKeyID / AuthorityKeyID, when set, are copied verbatim (an attacker chooses them freely).
+	RawSubject     []byte
+	SubjectKeyID   []byte
+	AuthorityKeyID []byte
 	// PubKey, when set, is the subject public key (any type x509 can encode); Key still names the certificate.
 	PubKey      any
 	ExtKeyUsage []x509.ExtKeyUsage // extended key usage extension (none by default, as in Intel's certificates)
@@ -89,6 +93,15 @@ func MakeCert(spec CertSpec, parent *x509.Certificate, signer *Key) *x509.Certif
 	if spec.SigAlg == 0 {
 		tmpl.SignatureAlgorithm = x509.ECDSAWithSHA256
 	}
+	if spec.RawSubject != nil {
+		tmpl.RawSubject = spec.RawSubject
+	}
+	if spec.SubjectKeyID != nil {
+		tmpl.SubjectKeyId = spec.SubjectKeyID
+	}
+	if spec.AuthorityKeyID != nil {
+		tmpl.AuthorityKeyId = spec.AuthorityKeyID
+	}
 	if spec.IsCA {
 		tmpl.KeyUsage = x509.KeyUsageCertSign | x509.KeyUsageCRLSign
 		if spec.MaxPathLen > 0 {
@@ -114,7 +127,9 @@ func MakeCert(spec CertSpec, parent *x509.Certificate, signer *Key) *x509.Certif
 	par := parent
 	if par == nil {
 		par = tmpl
-		tmpl.AuthorityKeyId = ski[:]
+		if spec.AuthorityKeyID == nil {
+			tmpl.AuthorityKeyId = tmpl.SubjectKeyId
+		}
 	}
 	if spec.IssuerName != nil {
 		// CreateCertificate copies parent.Subject (RawSubject when present); fake a parent.
